@@ -148,8 +148,9 @@ def rule_h(ck, F):
             {k: fmt_cond(v) for k, v in list(got.items()) + [(HDR + '.2.as1.0', own or FALSE)]}))
     rest = list(got.items())
     prev = 'map(get_last_picture(self), %s)' % last_fmt
-    fb_forms = (prev + '.as1.0', 'some(%s or PictureFormatMissing)' % prev)       # `if let Some(f) = prev` / `prev.ok_or(..)?`
-    if len(rest) != 1 or rest[0][0] not in fb_forms:
+    fb_forms = (prev + '.as1.0', 'some(%s or PictureFormatMissing)' % prev,       # `if let Some(f) = prev` / `prev.ok_or(..)?`
+                'format(get_last_picture(self).as1.0)')                          # `match self.get_last_picture() { Some(p) => p.format(), .. }`
+    if len(rest) != 1 or rest[0][0] not in fb_forms or (last_fmt is None and rest[0][0] != fb_forms[2]):
         ok = False
         ck.violation('H', 'H : decode_next_picture : fallback format', where_of(b, nb), 'without a format in the header the format in force is %s, expected the previous picture\'s format() (%s)' % (
             [k for k, _ in rest], fb_forms[0]))
